@@ -231,17 +231,22 @@ def fork_call(fn, timeout=60.0):
             except BaseException:  # noqa: BLE001
                 data = pickle.dumps(("err", traceback.format_exc()[-3000:]))
             with os.fdopen(w, "wb") as f:
-                f.write(data)
+                # length first: processes started by fn() (pool workers, a manager) inherit the pipe and may outlive
+                # this child, so the parent must not wait for end-of-file
+                f.write(len(data).to_bytes(8, "big") + data)
         except BaseException:  # noqa: BLE001
             code = 3
         finally:
             os._exit(code)
     os.close(w)
     chunks = []
+    have = 0
     deadline = time.time() + timeout
     timed_out = False
     try:
         while True:
+            if have >= 8 and have >= 8 + int.from_bytes(b"".join(chunks)[:8], "big"):
+                break
             left = deadline - time.time()
             if left <= 0:
                 timed_out = True
@@ -252,6 +257,7 @@ def fork_call(fn, timeout=60.0):
                 if not b:
                     break
                 chunks.append(b)
+                have += len(b)
     finally:
         os.close(r)
     if timed_out:
@@ -266,9 +272,14 @@ def fork_call(fn, timeout=60.0):
         os.waitpid(pid, 0)
         return ("timeout", None)
     _, status = os.waitpid(pid, 0)
-    if not chunks:
+    try:
+        os.killpg(pid, signal.SIGKILL)  # whatever fn() started and left behind
+    except Exception:  # noqa: BLE001
+        pass
+    buf = b"".join(chunks)
+    if len(buf) < 8 or len(buf) < 8 + int.from_bytes(buf[:8], "big"):
         return ("died", status)
-    return pickle.loads(b"".join(chunks))
+    return pickle.loads(buf[8:])
 
 
 def write_replay(prop, seed, m, hashseed=None):
